@@ -1,13 +1,14 @@
 #!/bin/sh
 # Re-run every seeded change against the quick tier at /repo's current HEAD; writes seeded/SWEEP.md
 cd "$(dirname "$0")/.." || exit 2
-out=seeded/SWEEP.md
+out=${OUT:-seeded/SWEEP.md}
 echo "# Seeded changes vs quick tier (tools/sweep_seeds.sh), /repo HEAD $(git -C /repo rev-parse --short HEAD), VERIF_SEED=${VERIF_SEED:-1}" > $out
 echo >> $out
 echo "| seeded change | property | applies | exit | sub-checks reporting |" >> $out
 echo "|---|---|---|---|---|" >> $out
 for d in seeded/C*/; do
   n=$(basename $d); id=${n%-*}
+  case " ${IDS:-$id} " in *" $id "*) ;; *) continue ;; esac
   wt=$(mktemp -d /tmp/vf_sweep_XXXXXX); rmdir $wt
   git -C /repo worktree add -q --detach $wt HEAD || exit 2
   if git -C $wt apply "$(pwd)/$d/patch.diff" 2>/dev/null; then
